@@ -255,7 +255,7 @@ func vfH_C19_oob_full_queue() {
 	err := pr.client.SendOOB(vfBytes("oob", 3))
 	vfReach("post")
 	vfAssert("oob/full-queue-drops-silently", err == nil)
-	vfAssert("oob/dropped-buffer-recycled", vfPoolLive() == live0)
+	vfAssert("oob/dropped-buffer-recycled", vfGhost(vfPoolLive() == live0))
 }
 
 // ---------------- C09 / C10 at session level ----------------
